@@ -35,8 +35,15 @@ class LoopSpec:
   ('while', test text); ordinal is the tie breaker."""
 
   def __init__(self, key, invariants, modifies=None, variant=None,
-               props=(), ordinal=None, ghost=None, extra_modifies=None):
+               props=(), ordinal=None, ghost=None, extra_modifies=None,
+               variant_lemmas=None):
     self.key = key
+    # variant: ns -> tuple of integer terms (most significant first), taken
+    # at the loop head after the test and again at the back edge.
+    # variant_lemmas: (ns at back edge, v0, v1) -> [(text, hypothesis)]:
+    # instances of stated mathematical lemmas the decrease may use; they are
+    # listed as assumptions in the evidence.
+    self.variant_lemmas = variant_lemmas
     self.invariants = clauses(invariants, props)
     self.modifies = modifies
     self.variant = variant
